@@ -108,6 +108,8 @@ func (d *BaseLeecher) UnregisterPeer(peer string) error {
 
 	if d.callback.OngoingSessionPeer() == peer {
 		d.callback.TerminateSession()
+		// forget the peer first, so that the replacement session isn't started with it again
+		delete(d.Peers, peer)
 		d.Routine()
 	}
 	delete(d.Peers, peer)
